@@ -44,8 +44,8 @@ ASSUMPTIONS = [
 
 TYPES = ["int8", "uint8", "int16", "uint16", "int32", "uint32", "int64", "uint64"]
 # failed domain clauses (numbers of Corr/C15Judge.v failed_clause); 1-5 (D6 family: getitem step / triu-tril k) were
-# repaired in /repo by 0a2ad47 and 972d3f2 and are no longer part of any domain
-CLAUSES = {6: "uint64_promotes_to_float", 7: "gcxs_rows_exceed_indptr_dtype"}
+# repaired in /repo by 0a2ad47 and 972d3f2, 7 (gcxs_rows_exceed_indptr_dtype) by 36b3bc9: no longer part of any domain
+CLAUSES = {6: "uint64_promotes_to_float"}
 DT_RE = re.compile(r"dtype|u?int(8|16|32|64)|index type|idx_dtype", re.I)
 
 
@@ -229,8 +229,9 @@ def _impl_op(case):
         assert dts == {t}, dts
         ptrs = [([int(v) for v in g.indptr], int(g.nnz)) for g in gs]
         r = sparse.concatenate(gs, axis=0) if case["how"] == "concat" else sparse.stack(gs, axis=0)
-        return {"rows": [[int(v) for v in r.indptr]], "dt": str(r.indptr.dtype), "ptrs": ptrs,
-                "shape": list(r.shape)}
+        from sparse.numba_backend._compressed.convert import uncompress_dimension
+        return {"rows": [[int(v) for v in r.indptr], [int(v) for v in uncompress_dimension(r.indptr)]],
+                "dt": str(r.indptr.dtype), "ptrs": ptrs, "shape": list(r.shape)}
     if k == "uncompress":
         from sparse.numba_backend._compressed.convert import uncompress_dimension
         p = np.array(case["indptr"], dtype=t)
@@ -346,6 +347,7 @@ def _diff_calls():
         "gcxs_T": lambda x: gcxs(x).T,
         "gcxs_getitem": lambda x: gcxs(x)[1:],
         "gcxs_getitem_neg": lambda x: gcxs(x)[::-1],
+        "gcxs_fancy_rep": lambda x: gcxs(x)[[0, 1, 2] * 100],
         "gcxs_reshape": lambda x: gcxs(x).reshape((-1,)),
         "gcxs_concat": lambda x: sparse.concatenate([gcxs(x), gcxs(x)], axis=0),
         "gcxs_concat_dense": lambda x: sparse.concatenate([gcxs(x), gcxs(x)], axis=0).todense(),
@@ -511,7 +513,7 @@ def gen_op_cases(tier, rng):
                 lin = sorted(rng.sample(range(rows * cols), nn))
                 ops.append(([rows, cols], [[l // cols, l % cols] for l in lin]))
             cases.append(dict(kind="gjoin", t=t, ops=ops, how="concat"))
-        for nrows in [3, 127, 128, 129, 255, 256, 257, 300]:
+        for nrows in [n for n in [3, 127, 128, 129, 255, 256, 257, 300] if n <= thi(t)]:   # kernel level, in its domain
             ptr = [0] * nrows + [1]
             ptr[nrows // 2:] = [1] * (len(ptr) - nrows // 2)
             ptr[-1] = 2
@@ -559,7 +561,7 @@ def gen_prim_cases(tier, rng):
 
 # calls whose cost is dominated by compiling Numba kernels for the index dtype: in the quick tier they run for the
 # narrowest signed / unsigned types, one 16-bit type and uint64 only (all eight types in the thorough tier)
-JIT_HEAVY = {"sort", "dot", "gcxs_dot", "getitem_fancy", "getitem_last", "getitem_int", "gcxs_getitem", "gcxs_getitem_neg",
+JIT_HEAVY = {"gcxs_fancy_rep", "sort", "dot", "gcxs_dot", "getitem_fancy", "getitem_last", "getitem_int", "gcxs_getitem", "gcxs_getitem_neg",
              "gcxs_stack", "gcxs_reshape", "gcxs_concat", "gcxs_concat_dense", "to_gcxs_back", "gcxs_T", "gcxs_sum0",
              "sum_all", "min_last", "mul_self", "add_bcast", "diagonal", "diagonal_1"}
 QUICK_HEAVY_TYPES = {"int8", "uint8", "uint16", "uint64"}
@@ -881,12 +883,14 @@ def _short(p):
 def diff_clause(name, t, got):
     """clause tag of a differential violation: only the defect classes still open in /repo"""
     cls = got.get("cls")
+    if name == "gcxs_fancy_rep" and not t.startswith("u"):
+        return "gcxs_fancy_getitem_indptr_dtype"
     if name.startswith("gcxs_getitem") or (name.startswith("gcxs") and cls == "AttributeError"):
         return "gcxs_getitem_unsigned_indices"
     if t == "uint64" and cls in ("TypeError", "IndexError", "TypingError"):
         return "uint64_promotes_to_float"
-    if name.startswith("gcxs_concat") or name.startswith("gcxs_stack"):
-        return "gcxs_rows_exceed_indptr_dtype"
+    if name == "gcxs_fancy_rep":
+        return "gcxs_fancy_getitem_indptr_dtype"
     return None
 
 
